@@ -293,18 +293,18 @@ Section ZIndex.
   Qed.
 
   (* zRemAll *)
-  Lemma zrem_all_ref clock z a : Rep clock z -> simz z a ->
-    simz (fst (zrem_all compact z)) (@nil (bytes * score)) /\ snd (zrem_all compact z) = Z.of_nat (length a).
+  Lemma zrem_all_ref clock lazy z a : Rep clock z -> simz z a ->
+    simz (fst (zrem_all lazy z)) (@nil (bytes * score)) /\ snd (zrem_all lazy z) = Z.of_nat (length a).
   Proof.
     intros R S. pose proof R as [Rc Ri]. pose proof (sim_size compact clock (z_c z) a Rc S) as Hs.
     unfold zrem_all. fold (zsize z) in Hs. destruct (zsize z =? 0) eqn:Z0.
     - assert (a = []) by (destruct a; [reflexivity|cbn [length] in Hs; lia]). subst a. cbn [fst snd]. split; [exact S|reflexivity].
-    - assert (X : forall b, b = compact ->
+    - assert (X : forall b : bool,
                 simz (fst (if b then ({| z_c := Build_coll None (c_elems (z_c z)); z_index := z_index z |}, zsize z)
                                 else zremove (map snd (index_scan (zver z) (z_index z))) z)) [] /\
                 snd (if b then ({| z_c := Build_coll None (c_elems (z_c z)); z_index := z_index z |}, zsize z)
                      else zremove (map snd (index_scan (zver z) (z_index z))) z) = Z.of_nat (length a)).
-      { intros b Hb. destruct b; cbn [fst snd].
+      { intros b. destruct b; cbn [fst snd].
         - split; [|exact Hs]. unfold simz, sim, abs_c, exists_coll. cbn [z_c c_meta]. apply meq_refl. constructor.
         - assert (NDm : NoDup (map snd (index_scan (zver z) (z_index z)))) by (eapply index_scan_members_NoDup; exact R).
           destruct (zremove_ref compact clock _ z a R NDm S) as [S' C'].
@@ -317,7 +317,7 @@ Section ZIndex.
             - intros ([m s] & <- & H). exists (s, m). split; [reflexivity|]. apply isort_In. apply in_map_iff. exists (m, s). auto. }
           destruct (del_all_members a (map snd (zsorted a)) NDa (fun k Hk => proj2 (MS k) Hk)) as [D1 D2].
           split; [eapply meq_trans; [exact S'|exact D1]|]. rewrite C'. apply D2; [exact NDm|]. intros k Hk; apply MS; exact Hk. }
-      apply X; reflexivity.
+      apply X.
   Qed.
 End ZIndex.
 
@@ -336,8 +336,8 @@ Section ZRanges.
   Qed.
 
   (* removal of the members selected from the score index *)
-  Lemma zrem_sel_ref clock sel z a : Rep clock z -> simz z a ->
-    zref (zrem_range_bytes compact sel 0 (-1))
+  Lemma zrem_sel_ref clock lazy sel z a : Rep clock z -> simz z a ->
+    zref (zrem_range_bytes lazy sel 0 (-1))
          (fun a => let '(z', n) := remove_members (map snd (filter sel (zsorted a))) a in (z', RInt n)) z a.
   Proof.
     intros R S. unfold zref, zrem_range_bytes. pose proof R as [Rc Ri].
@@ -360,7 +360,7 @@ Section ZRanges.
     intros R S. unfold zref. cbn [MapZ.zstep SpecZ.zstep].
     destruct lo as [l|]; [|split; [reflexivity|exact S]]. destruct hi as [h|]; [|split; [reflexivity|exact S]].
     destruct (negb (key_ok key)); [split; [reflexivity|exact S]|].
-    apply (zrem_sel_ref clock (fun e => in_score l h (fst e)) z a R S).
+    apply (zrem_sel_ref clock _ (fun e => in_score l h (fst e)) z a R S).
   Qed.
 
   Lemma zclear_ref clock ts key z a : Rep clock z -> simz z a ->
@@ -368,8 +368,8 @@ Section ZRanges.
   Proof.
     intros R S. unfold zref. cbn [MapZ.zstep SpecZ.zstep].
     destruct (negb (key_ok key)); [split; [reflexivity|exact S]|].
-    destruct (zrem_all_ref compact clock z a R S) as [S' C'].
-    destruct (zrem_all compact z) as [z' n]. cbn [fst snd] in *. subst n.
+    destruct (zrem_all_ref compact clock (lazy_clear compact ts (zver z)) z a R S) as [S' C'].
+    destruct (zrem_all (lazy_clear compact ts (zver z)) z) as [z' n]. cbn [fst snd] in *. subst n.
     destruct a as [|p a']; cbn [length fst snd].
     - split; [reflexivity|exact S'].
     - split; [reflexivity|exact S'].
@@ -425,10 +425,10 @@ Section ZRanges.
       split; [f_equal; lia|]. unfold simz in *. eapply meq_trans; [exact S'|exact D1]. }
     destruct lo as [lo'|]; [apply Gen; reflexivity|]. destruct hi as [hi'|]; [apply Gen; reflexivity|].
     (* both unbounded: everything goes *)
-    destruct (zrem_all_ref compact clock z a R S) as [S' C'].
+    destruct (zrem_all_ref compact clock (lazy_clear compact ts (zver z)) z a R S) as [S' C'].
     assert (FA : filter (in_lex None None lopen ropen) (map fst a) = map fst a) by (apply filter_all; intros; reflexivity).
     rewrite FA. destruct (del_all_members a (map fst a) NDa (fun k H => H)) as [D1 D2].
-    unfold remove_members. destruct (zrem_all compact z) as [z' n]. destruct (del_loop (map fst a) a) as [h k]. cbn [fst snd] in *.
+    unfold remove_members. destruct (zrem_all (lazy_clear compact ts (zver z)) z) as [z' n]. destruct (del_loop (map fst a) a) as [h k]. cbn [fst snd] in *.
     split; [f_equal; rewrite C'; symmetry; apply D2; [exact NDa|auto]|].
     unfold simz in *. eapply meq_trans; [exact S'|apply meq_sym; exact D1].
   Qed.
@@ -598,13 +598,13 @@ Section ZReads.
         assert (ra = 0 /\ rb = zsize z - 1) as [-> ->] by lia.
         assert ((max_batch_num <? zsize z - 1 - 0 + 1) && (zsize z - 1 - 0 + 1 <? zsize z) = false) as -> by lia.
         rewrite (slice_all (zsorted a) (zsize z) LZ) by lia.
-        destruct (zrem_all_ref compact clock z a R S) as [S' C'].
+        destruct (zrem_all_ref compact clock (lazy_clear compact ts (zver z)) z a R S) as [S' C'].
         assert (MS : forall k, In k (map snd (zsorted a)) <-> In k (map fst a)).
         { intros k. unfold zsorted. rewrite !in_map_iff. split.
           - intros ([s m] & <- & H). apply isort_In in H. apply in_map_iff in H. destruct H as ([m' s'] & E' & H). inversion E'; subst. exists (m, s). auto.
           - intros ([m s] & <- & H). exists (s, m). split; [reflexivity|]. apply isort_In. apply in_map_iff. exists (m, s). auto. }
         destruct (del_all_members a (map snd (zsorted a)) NDa (fun k Hk => proj2 (MS k) Hk)) as [D1 D2].
-        unfold remove_members. destruct (zrem_all compact z) as [z' n]. destruct (del_loop (map snd (zsorted a)) a) as [h k]. cbn [fst snd] in *.
+        unfold remove_members. destruct (zrem_all (lazy_clear compact ts (zver z)) z) as [z' n]. destruct (del_loop (map snd (zsorted a)) a) as [h k]. cbn [fst snd] in *.
         split; [f_equal; rewrite C'; symmetry; apply D2; [exact NDs|intros x Hx; apply MS; exact Hx]|].
         unfold simz in *. eapply meq_trans; [exact S'|apply meq_sym; exact D1].
       + assert (rb - ra + 1 <? zsize z = true) as -> by lia. rewrite andb_true_r.
